@@ -31,8 +31,25 @@ def check_cleanup_guards(ctx: Ctx) -> None:
             tests = _isinstance_tests(ctx, fi, n)
             guards = [(b, lab) for b, lab in all_guards(prog, fi, n) if b.kind == "test"]
             heading = any(lab == "T" and any(c.endswith("Heading") for c in cls) and all(c.endswith("Heading") for c in cls) for o, cls, lab in tests)
-            strong = any(lab == "T" and cls == ["marko.inline.StrongEmphasis"] for o, cls, lab in tests)
-            single = any(lab == "T" and "len(" in norm(b.ast) and "== 1" in norm(b.ast) for b, lab in guards)
+            obj = norm(tg.value)
+            # the child that is unwrapped must be the *only* child of the node that is re-linked, and be strong emphasis
+            def _is_first_child(o: str) -> bool:
+                if o == f"{obj}.children[0]":
+                    return True
+                for d in flow.defs:  # alias: first = element.children[0]
+                    if d.var == o and d.kind == "assign" and d.value is not None and norm(d.value) == f"{obj}.children[0]":
+                        return True
+                return False
+
+            strong = any(lab == "T" and cls == ["marko.inline.StrongEmphasis"] and _is_first_child(o) for o, cls, lab in tests)
+            single = False
+            for b, lab in guards:
+                if lab != "T":
+                    continue
+                for leaf in ([b.ast] if not isinstance(b.ast, ast.BoolOp) else list(b.ast.values)):
+                    if isinstance(leaf, ast.Compare) and isinstance(leaf.ops[0], ast.Eq) and norm(leaf.left) == f"len({obj}.children)" \
+                            and isinstance(leaf.comparators[0], ast.Constant) and leaf.comparators[0].value == 1:
+                        single = True
             # the value stored is the children of that strong node (content is kept, only the wrapper goes)
             val_ok = isinstance(n.ast.value, ast.Attribute) and n.ast.value.attr == "children"
             ctx.ob("R-CLEANUP", f"{fi.qual} :: {norm(n.ast)}", heading and strong and single and val_ok,
